@@ -19,7 +19,25 @@ from .pyfacts import (ClassRef, EnumMember, FuncRef, NotConst, PyClass, PyEval, 
 
 
 class Unknown(NotConst):
-    """A construct outside the interpretable fragment (symbolic branch, unsupported feature)."""
+    """A construct outside the interpretable fragment (symbolic branch, unsupported feature).  `symbols` names the symbolic
+    inputs a value-dependent branch hinges on, so that an analysis can split on them."""
+
+    def __init__(self, msg: str = "", symbols: Any = ()):
+        super().__init__(msg)
+        self.symbols = frozenset(symbols)
+
+
+def symbols_of(*vals: Any) -> set[str]:
+    out: set[str] = set()
+    for v in vals:
+        if isinstance(v, BitVec):
+            for b in v.bits:
+                if isinstance(b, tuple) and b and isinstance(b[0], str):
+                    out.add(b[0])
+        elif hasattr(v, "terms") and hasattr(v, "c"):
+            for _k, bv in v.terms:
+                out |= symbols_of(bv)
+    return out
 
 
 class Obj:
@@ -348,7 +366,7 @@ class AbsEval(PyEval):
                             if c0 is not None and ({"IntEnum", "IntFlag"} & c0.ext_bases()):
                                 # value-like enum used for naming only: keep the value symbolic
                                 return EnumMember(f.name, "<" + sym_name(v) + ">", v)
-                            raise Unknown(f"enum lookup {f.name}(<symbolic>) at {self.where(n)}")
+                            raise Unknown(f"enum lookup {f.name}(<symbolic>) at {self.where(n)}", symbols_of(v))
                         v = v.value()
                     for m in members.values():
                         if m.value == v or m == v:
@@ -494,7 +512,7 @@ class AbsEval(PyEval):
                             return False
                         left = right
                         continue
-                    raise Unknown(f"comparison on a symbolic value at {self.where(n)}: {unparse(n)}")
+                    raise Unknown(f"comparison on a symbolic value at {self.where(n)}: {unparse(n)}", symbols_of(a, b))
                 left, right = a, b
             if isinstance(op, (ast.Is, ast.IsNot)):
                 same = (left is right) or (left is None and right is None) or (isinstance(left, (EnumMember, bool)) and type(left) is type(right) and left == right) \
@@ -558,7 +576,7 @@ class AbsEval(PyEval):
         if isinstance(v, BitVec):
             if v.is_const():
                 return v.value() != 0
-            raise Unknown(f"truth value of a symbolic value at {self.where(n)}")
+            raise Unknown(f"truth value of a symbolic value at {self.where(n)}", symbols_of(v))
         if isinstance(v, Obj):
             if v.cls.find_method("__bool__") or v.cls.find_method("__len__"):
                 raise Unknown(f"__bool__/__len__ on {v.cls.name}")
@@ -601,7 +619,7 @@ class AbsEval(PyEval):
         idx = self.eval(n.slice)
         if isinstance(idx, BitVec):
             if not idx.is_const():
-                raise Unknown(f"symbolic subscript at {self.where(n)}")
+                raise Unknown(f"symbolic subscript at {self.where(n)}", symbols_of(idx))
             idx = idx.value()
         if isinstance(base, ClassRef) and self.cls_of(base) is not None:
             members = self.enum_members(base)
